@@ -3,14 +3,14 @@
    (value of the right length, RFU bits ignored; any other length refused). *)
 From Coq Require Import List NArith ZArith Bool Lia.
 From Coq Require Import ZifyN ZifyNat ZifyBool.
-From LW Require Import Base.Outcome Base.Bytes Base.Bits Mac.Commands Mac.Spec Mac.ByteLemmas Mac.EqLemmas.
+From LW Require Import Base.Outcome Base.Bytes Base.Bits Mac.Commands Mac.Spec Mac.ByteLemmas Mac.EqLemmas Mac.PackProofs.
 Import ListNotations.
 Open Scope N_scope.
 Ltac Zify.zify_post_hook ::= Z.div_mod_to_equations.
 
 Definition dec_spec (k : kind) (bs : list N) : outcome macpl :=
   if Nat.eqb (length bs) (byte_size (layout_of k))
-  then Ok (value_of k (spec_decode (layout_of k) bs)) else Err.
+  then Ok (value_of k (spec_decode_k k bs)) else Err.
 
 Definition peqb := outcome_eqb macpl_eqb.
 
@@ -75,21 +75,21 @@ Proof. intros. unfold f2b. now apply land_bit. Qed.
 Lemma dec_beaconfreq b0 b1 b2 : b0 < 256 -> b1 < 256 -> b2 < 256 ->
   dec KBeaconFreqReq [b0; b1; b2] = dec_spec KBeaconFreqReq [b0; b1; b2].
 Proof.
-  intros H0 H1 H2. unfold dec, dec_spec. change (byte_size (layout_of _)) with 3%nat. cbn [length Nat.eqb layout_of].
+  intros H0 H1 H2. unfold dec, dec_spec. rewrite spec_decode_k_plain by reflexivity. change (byte_size (layout_of _)) with 3%nat. cbn [length Nat.eqb layout_of].
   unfold spec_decode. cbn [unpack value_of g nth le_val]. pows. do 2 f_equal. lia.
 Qed.
 
 Lemma dec_dlchannel b0 b1 b2 b3 : b0 < 256 -> b1 < 256 -> b2 < 256 -> b3 < 256 ->
   dec KDLChannelReq [b0; b1; b2; b3] = dec_spec KDLChannelReq [b0; b1; b2; b3].
 Proof.
-  intros H0 H1 H2 H3. unfold dec, dec_spec. change (byte_size (layout_of _)) with 4%nat. cbn [length Nat.eqb layout_of].
+  intros H0 H1 H2 H3. unfold dec, dec_spec. rewrite spec_decode_k_plain by reflexivity. change (byte_size (layout_of _)) with 4%nat. cbn [length Nat.eqb layout_of].
   unfold spec_decode, nth0. cbn [unpack value_of g nth le_val skipn]. pows. f_equal. f_equal; lia.
 Qed.
 
 Lemma dec_pingslotchannel b0 b1 b2 b3 : b0 < 256 -> b1 < 256 -> b2 < 256 -> b3 < 256 ->
   dec KPingSlotChannelReq [b0; b1; b2; b3] = dec_spec KPingSlotChannelReq [b0; b1; b2; b3].
 Proof.
-  intros H0 H1 H2 H3. unfold dec, dec_spec. change (byte_size (layout_of _)) with 4%nat. cbn [length Nat.eqb layout_of].
+  intros H0 H1 H2 H3. unfold dec, dec_spec. rewrite spec_decode_k_plain by reflexivity. change (byte_size (layout_of _)) with 4%nat. cbn [length Nat.eqb layout_of].
   unfold spec_decode, nth0. cbn [unpack value_of g nth le_val firstn]. rewrite land15 by assumption.
   pows. f_equal. f_equal; lia.
 Qed.
@@ -97,7 +97,7 @@ Qed.
 Lemma dec_devicetime b0 b1 b2 b3 b4 : b0 < 256 -> b1 < 256 -> b2 < 256 -> b3 < 256 -> b4 < 256 ->
   dec KDeviceTimeAns [b0; b1; b2; b3; b4] = dec_spec KDeviceTimeAns [b0; b1; b2; b3; b4].
 Proof.
-  intros H0 H1 H2 H3 H4. unfold dec, dec_spec. change (byte_size (layout_of _)) with 5%nat. cbn [length Nat.eqb layout_of].
+  intros H0 H1 H2 H3 H4. unfold dec, dec_spec. rewrite spec_decode_k_plain by reflexivity. change (byte_size (layout_of _)) with 5%nat. cbn [length Nat.eqb layout_of].
   unfold spec_decode, nth0, second. cbn [unpack value_of g nth le_val firstn]. pows. do 2 f_equal.
   f_equal; [|f_equal; lia]. rewrite Z.mul_comm. f_equal. f_equal. lia.
 Qed.
@@ -105,7 +105,7 @@ Qed.
 Lemma dec_rxparamsetup b0 b1 b2 b3 : b0 < 256 -> b1 < 256 -> b2 < 256 -> b3 < 256 ->
   dec KRXParamSetupReq [b0; b1; b2; b3] = dec_spec KRXParamSetupReq [b0; b1; b2; b3].
 Proof.
-  intros H0 H1 H2 H3. unfold dec, dec_spec, dec_dlsettings. change (byte_size (layout_of _)) with 4%nat. cbn [length Nat.eqb layout_of].
+  intros H0 H1 H2 H3. unfold dec, dec_spec, dec_dlsettings. rewrite spec_decode_k_plain by reflexivity. change (byte_size (layout_of _)) with 4%nat. cbn [length Nat.eqb layout_of].
   unfold spec_decode, nth0. cbn [unpack value_of g nth le_val firstn skipn].
   rewrite land15, bits_6_4 by assumption. change 128 with (2 ^ 7). rewrite f2b_div by (assumption || lia).
   pows. f_equal. f_equal; [lia | f_equal; lia | lia | lia].
@@ -114,7 +114,7 @@ Qed.
 Lemma dec_newchannel b0 b1 b2 b3 b4 : b0 < 256 -> b1 < 256 -> b2 < 256 -> b3 < 256 -> b4 < 256 ->
   dec KNewChannelReq [b0; b1; b2; b3; b4] = dec_spec KNewChannelReq [b0; b1; b2; b3; b4].
 Proof.
-  intros H0 H1 H2 H3 H4. unfold dec, dec_spec. change (byte_size (layout_of _)) with 5%nat. cbn [length Nat.eqb layout_of].
+  intros H0 H1 H2 H3 H4. unfold dec, dec_spec. rewrite spec_decode_k_plain by reflexivity. change (byte_size (layout_of _)) with 5%nat. cbn [length Nat.eqb layout_of].
   unfold spec_decode, nth0, newch_freq_of. cbn [unpack value_of g nth le_val firstn skipn].
   rewrite land15, hi_nibble by assumption. pows.
   set (f := b1 + 256 * (b2 + 256 * (b3 + 256 * 0))).
@@ -143,7 +143,7 @@ Qed.
 Lemma dec_linkadr b0 b1 b2 b3 : b0 < 256 -> b1 < 256 -> b2 < 256 -> b3 < 256 ->
   dec KLinkADRReq [b0; b1; b2; b3] = dec_spec KLinkADRReq [b0; b1; b2; b3].
 Proof.
-  intros H0 H1 H2 H3. unfold dec, dec_spec, dec_chmask. change (byte_size (layout_of _)) with 4%nat. cbn [length Nat.eqb layout_of].
+  intros H0 H1 H2 H3. unfold dec, dec_spec, dec_chmask. rewrite spec_decode_k_plain by reflexivity. change (byte_size (layout_of _)) with 4%nat. cbn [length Nat.eqb layout_of].
   unfold spec_decode, nth0. cbn [unpack value_of g nth le_val firstn skipn length Nat.eqb bind].
   rewrite !land15, hi_nibble, bits_6_4 by assumption. pows.
   f_equal. f_equal; try lia.
@@ -176,4 +176,39 @@ Proof.
           | apply dec_rxparamsetup; assumption
           | apply dec_newchannel; assumption
           | apply dec_linkadr; assumption ].
+Qed.
+
+(* DutyCycleReq, spelled out (finding C06-3): bits 7:4 of a received octet are RFU and do not reach
+   the value; the one octet not read through the layout is the LoRaWAN 1.0 value 255.  All 256 octets. *)
+Lemma sweep_dutycycle :
+  forallb (fun b => peqb (dec KDutyCycleReq [b]) (Ok (PDutyCycleReq (if b =? 255 then 255 else b mod 16)))) (range 256) = true.
+Proof. vm_compute. reflexivity. Qed.
+
+Theorem dec_dutycycle b : b < 256 ->
+  dec KDutyCycleReq [b] = Ok (PDutyCycleReq (if b =? 255 then 255 else b mod 16)).
+Proof. intros Hb. apply peqb_eq. exact (sweep1 256 _ sweep_dutycycle b Hb). Qed.
+
+(* ... so what the decoder yields is always a value the encoder accepts, and re-encodes to the octet
+   with the RFU bits cleared *)
+Lemma sweep_dutycycle_reencode :
+  forallb (fun b => match dec KDutyCycleReq [b] with
+                    | Ok v => outcome_eqb bytes_eqb (enc v) (Ok [if b =? 255 then 255 else b mod 16])
+                    | _ => false end) (range 256) = true.
+Proof. vm_compute. reflexivity. Qed.
+
+Theorem dec_dutycycle_reencodes b : b < 256 ->
+  exists v, dec KDutyCycleReq [b] = Ok v /\ enc v = Ok [if b =? 255 then 255 else b mod 16].
+Proof.
+  intros Hb. pose proof (sweep1 256 _ sweep_dutycycle_reencode b Hb) as S. cbv beta in S.
+  destruct (dec KDutyCycleReq [b]) as [v| | |]; try discriminate. exists v. split; [reflexivity|].
+  destruct (enc v) as [bs| | |]; cbn in S; try discriminate. apply bytes_eqb_eq in S. now subst.
+Qed.
+
+Theorem dutycycle_rfu_ignored b : b < 256 ->
+  dec KDutyCycleReq [b] = Ok (PDutyCycleReq (if b =? 255 then 255 else b mod 16)) /\
+  enc (PDutyCycleReq (if b =? 255 then 255 else b mod 16)) = Ok [if b =? 255 then 255 else b mod 16].
+Proof.
+  intros Hb. split; [exact (dec_dutycycle b Hb)|].
+  destruct (dec_dutycycle_reencodes b Hb) as (v & Hd & He). rewrite (dec_dutycycle b Hb) in Hd.
+  injection Hd as <-. exact He.
 Qed.
